@@ -208,7 +208,10 @@ static inline void realize(Tree &t, Table *tb, Rng &r, const GenOpts &o)
 {
     for(auto &p : tb->ports) if(p->sub && !p->sub->lib) realize(t, p->sub, r, o);
     Tree *tp = &t;
-    auto defcb = [tp, tb](const char *m, rtosc::RtData &d) {
+    // (captures more than std::function's small-object buffer holds: copying the handler would allocate)
+    void *pad1 = tb, *pad2 = tp;
+    auto defcb = [tp, tb, pad1, pad2](const char *m, rtosc::RtData &d) {
+        (void)pad1; (void)pad2;
         if(g_quiet) { ++g_quiet_calls; ++g_quiet_default_calls; return; }
         tp->log.push_back(LogEntry{-1 - tb->id, m, d.loc ? std::string(d.loc) : std::string(), d.loc != 0, d.obj, d.port, d.message});
     };
